@@ -192,7 +192,7 @@ def cprNL(lat: float) -> int:
 
     if np.isclose(lat, 0):
         return 59
-    elif np.isclose(abs(lat), 87):
+    elif abs(lat) <= 87 and np.isclose(abs(lat), 87):
         return 2
     elif lat > 87 or lat < -87:
         return 1
